@@ -48,6 +48,13 @@ def check_doc(args):
     for ent in rec['rx']['r']:
         c = ent['c']
         got = [[m.position, len(str(m))] for m in soup.search_regex(re.escape(c) + '+')]
+        if c == ' ':
+            # blanks that form a token of their own are not part of the text view: for runs of blanks every REPORTED match must
+            # sit at its true offset and the reported matches must be among the expected ones
+            if any(src[p0:p0 + n] != ' ' * n for p0, n in got) or any(g not in ent['at'] for g in got):
+                bad.append(('C13-regex', {'pattern': ' +', 'got': got[:8], 'want_among': ent['at'][:8]}))
+                break
+            continue
         if got != ent['at']:
             bad.append(('C13-regex', {'pattern': c + '+', 'got': got[:8], 'want': ent['at'][:8]}))
             break
@@ -189,6 +196,8 @@ def run(chk):
     bare = 'Cmd(%s, << Cmd(%s, <<>>), Grp("{", << T(%s) >>, <<>>) >>)' % (tlc.tla_seq('def'), tlc.tla_seq('nm'), tlc.tla_seq('v'))
     bare2 = 'Cmd(%s, << Cmd(%s, <<>>) >>)' % (tlc.tla_seq('textbf'), tlc.tla_seq('nm'))
     for label, pools in [('docs', {'Budget': 3 if quick else 4, 'Leaves': D.BASE['Leaves'] + [bare, bare2]}),
+                         ('brackets', {'Budget': 3, 'TextPool': ['[a, b] [c, d]', 'see [1] ', 'x ] y'], 'ComPool': ['n'], 'MathKinds': ['$'], 'MEnvNames': [],
+                                       'VerbNames': [], 'Leaves': [], 'ListNames': [], 'CmdNames': ['a'], 'MaxSib': 3}),
                          ('lines', {'Budget': 4, 'TextPool': ['a', '\n', 'b c\nx', ' ', 'aa a'], 'ComPool': ['a'], 'MathKinds': ['$'],
                                     'MEnvNames': [], 'VerbNames': ['verbatim'], 'VerbBodies': ['a\nxx a'], 'Leaves': [], 'ListNames': [], 'MaxSib': 3})]:
         recs, p = D.generate(chk, label, pools, [i for i in INV if i != 'C19_TokPosG'])
